@@ -121,9 +121,9 @@ def run_parallel(exe, lines, jobs=16):
     return [e for r in res for e in r]
 
 
-def gen(workdir, consts, name="genprintf"):
+def gen(workdir, consts, name="genprintf", spec="Spec"):
     cfg = os.path.join(workdir, name + ".cfg")
-    tlc.write_cfg(cfg, constants=consts, invariants=["ParserRecovers", "NConvIffBuilt", "ArgsConsumed"])
+    tlc.write_cfg(cfg, spec=spec, constants=consts, invariants=["ParserRecovers", "NConvIffBuilt", "ArgsConsumed"])
     r = tlc.model_check("GenPrintf", cfg, workdir, workers=16, dump=True, heap="12g")
     if r["violated"] or not r["ok"]:
         raise tlc.TLCError("GenPrintf grammar-level check failed: %s\n%s" % (r["violated"], r["out"][-2500:]))
@@ -186,3 +186,138 @@ SCOPES = {
                      Precs={900, 0, 1, 5, 20, 901, 902}, Lens={"", "hh", "h", "l", "ll", "j", "z", "t", "L"}, Shapes={1, 2, 3, 4},
                      IntIdx=set(range(1, 15))),
 }
+
+
+MINI = dict(Convs={100, 120, 115, 99, 102}, FlagSets={0, 1, 2}, Widths={900, 5}, Precs={900, 0, 3}, Lens={"", "l", "L"}, Shapes={1, 2}, IntIdx={1, 3, 12})
+NSCOPE = dict(Convs={110, 100}, FlagSets={0, 1, 2, 3, 5}, Widths={900, 5, 901}, Precs={900, 3}, Lens={"", "hh", "h", "l", "ll", "j", "z", "t"},
+              Shapes={1, 2, 3, 4, 5}, IntIdx={2})
+
+
+def _violations(prop, bad, res):
+    for b in bad:
+        if prop not in b["props"]:
+            continue
+        res.violations.append(dict(desc=describe(b), cluster=cluster(b) + "|" + b["dev"], slug="pf-%s-%d" % (b["fn"], b["event"]["id"]), dev=b["dev"],
+                                   replay=dict(kind="printf", fn=b["fn"], case=b["case"], flavour=b["flavour"], observed=b["event"], props=b["props"])))
+
+
+def _argviol_cases():
+    """dest/fmt NULL, dmax 0 / HUGE for the buffer functions (C05: reported once, nothing touched)"""
+    base = dict(fmt=[97, 37, 100], at=[1], av=[5, 0, 0, 0], loc=0, cv=100, ln="")
+    out = []
+    for dn, fnl, dm in ((1, 0, 8), (0, 1, 8), (0, 0, 0), (0, 0, -1), (1, 0, 0), (1, 1, 8)):
+        c = dict(base)
+        c.update(dnull=dn, fnull=fnl, dmax=dm)
+        out.append(c)
+    return out
+
+
+def run_c11(prop, tier, seed, workdir):
+    res = Result("printf")
+    rnd = random.Random(seed)
+    sc = dict(SCOPES[tier])
+    sc["Fns"] = {"x"}
+    cases, r = gen(workdir, sc)
+    fns = NARROW_BUF + NARROW_STREAM
+    jobs = []
+    for c in cases:
+        # every case through sprintf_s and one other entry point (rotating), so that all 8 are covered evenly
+        jobs.append(("sprintf_s", c))
+    for i, c in enumerate(cases):
+        jobs.append((fns[1 + i % 7], c))
+    # the text must not depend on earlier calls: the same jobs again in a different order
+    second = jobs[:]
+    rnd.shuffle(second)
+    n1, bad1, st1 = execute_and_judge(jobs, workdir)
+    n2, bad2, st2 = execute_and_judge(second[:len(second) // 2], workdir, flavours=("slack",))
+    _violations(prop, bad1 + bad2, res)
+    nontriv = {(tuple(c["fmt"]), tuple(c["av"])) for c in cases if c.get("cv") != 37}
+    res.coverage = dict(
+        states=r["distinct"], transitions=r["states"], traces_validated_against_impl=n1 + n2, evaluations=n1 + n2,
+        distinct_nontrivial=len(nontriv),
+        rule="TLC enumerates formats from the directive grammar (conversions %s, flag sets, widths, precisions incl. '*', length modifiers, "
+             "shapes with literal text) with arguments from the value tables (boundary integers as 16-bit limbs, strings incl. multibyte, "
+             "wide strings, doubles incl. +-0, denormal, 1e9 boundary, 1e300, inf, nan) and dmax = needed-1, needed, needed+2 computed from the "
+             "contract's own rendering, and checks the grammar-level invariants (ParserRecovers, NConvIffBuilt, ArgsConsumed); every case is "
+             "executed through sprintf_s and one of the other 7 narrow entry points (buffers in guarded memory, streams via tmpfile/redirected "
+             "stdout), in both slack builds, and a second time in shuffled order; TracePrintf.tla judges every event against the C layout rules "
+             "written in Printf.tla (floating conversions: candidate renderings within one unit of the last printed digit of glibc's 45-digit "
+             "expansion). non-trivial = distinct (format, arguments) pairs with a converting directive" % sorted(chr(c) for c in sc["Convs"]),
+        samples=[dict(fn=j[0], fmt=fmt_str(j[1]["fmt"]), args=args_tokens(j[1]["at"], j[1]["av"]), dmax=j[1]["dmax"]) for j in rnd.sample(jobs, 4)],
+        model_cases=len(cases), exhaustive=True, checker_cmd="tlc GenPrintf.tla ; tlc TracePrintf.tla")
+    res.assumptions = ["floating accuracy is judged by digit-string comparison against glibc's correctly rounded 45-digit expansion (trusted)",
+                       "arguments are passed through a generic variadic call shape (x86-64 SysV ABI: integer and floating arguments travel in separate register files)",
+                       "%g %G %a %A %p have no text oracle here (safety obligations only); wide printf text is not judged (C11 names the narrow family)"]
+    return res
+
+
+def run_c09(prop, tier, seed, workdir):
+    res = Result("printf-n")
+    rnd = random.Random(seed)
+    sc = dict(NSCOPE)
+    if tier == "thorough":
+        sc.update(FlagSets=set(range(14)), Widths={900, 0, 5, 40, 901}, Precs={900, 0, 3, 901})
+    sc["Fns"] = {"x"}
+    cases, r = gen(workdir, sc, spec="SpecAll")
+    pcases = [c for c in cases if c["fn"] != "scan"]
+    scases = [c for c in cases if c["fn"] == "scan"]
+    jobs = []
+    pf = NARROW_BUF + NARROW_STREAM + WIDE_BUF + WIDE_STREAM
+    for c in pcases:
+        c = dict(c)
+        c["dmax"] = 64
+        for fn in pf:
+            jobs.append((fn, c))
+    for c in scases:
+        for fn in SCAN_NARROW + SCAN_WIDE:
+            jobs.append((fn, c))
+    n, bad, st = execute_and_judge(jobs, workdir, flavours=("slack",))
+    _violations(prop, bad, res)
+    res.coverage = dict(
+        states=r["distinct"], transitions=r["states"], traces_validated_against_impl=n, evaluations=n,
+        distinct_nontrivial=len({tuple(c["fmt"]) for c in cases if 110 in c["fmt"]}),
+        rule="TLC enumerates printf formats built around an n directive with every flag set, width (none, number, '*'), precision and length "
+             "modifier (hh h l ll j z t), alone, between literals, behind an escaped %%, in front of another directive, and as escaped text "
+             "(%%5ln: no conversion), plus scanf formats (pre-piece x n-directive variants incl. %*n, %%n, literal n x post-piece) with input "
+             "synthesised so every directive is reached, and checks that the contract's grammar-accurate parser finds an n conversion iff one "
+             "was built in (NConvIffBuilt); every format runs through all 16 printf and 12 scanf entry points with sentinel targets; "
+             "TracePrintf.tla requires: sentinel untouched, the call rejected with one EINVAL report, and no rejection on account of a literal n. "
+             "non-trivial = distinct formats containing the letter n",
+        samples=[dict(fn=j[0], fmt=fmt_str(j[1]["fmt"])) for j in rnd.sample(jobs, 5)],
+        model_cases=len(cases), exhaustive=True, checker_cmd="tlc GenPrintf.tla (SpecAll) ; tlc TracePrintf.tla")
+    res.assumptions = ["scanf formats come from a fixed piece table in GenPrintf.tla (ScanPre x ScanN x ScanPost), not from the full scanf grammar",
+                       "a store through a %n argument is observed as a change of a 16-byte sentinel slot"]
+    return res
+
+
+def run_props(prop, tier, seed, workdir, res):
+    """formatted-output part of C01/C03/C04/C05/C08: adds violations and coverage to res"""
+    sc = dict(MINI if tier == "quick" else SCOPES["quick"])
+    sc["Fns"] = {"x"}
+    cases, r = gen(workdir, sc)
+    jobs = []
+    fns = NARROW_BUF + WIDE_BUF + ["fprintf_s", "printf_s"]
+    for i, c in enumerate(cases):
+        jobs.append((fns[i % 4], c))
+        if i % 3 == 0:
+            jobs.append((fns[4 + i % 6], c))
+    for c in _argviol_cases():
+        for fn in NARROW_BUF + WIDE_BUF:
+            jobs.append((fn, c))
+    n, bad, st = execute_and_judge(jobs, workdir)
+    _violations(prop, bad, res)
+    res.coverage["states"] = res.coverage.get("states", 0) + r["distinct"]
+    res.coverage["transitions"] = res.coverage.get("transitions", 0) + r["states"]
+    res.coverage["traces_validated_against_impl"] = res.coverage.get("traces_validated_against_impl", 0) + n
+    res.coverage["evaluations"] = res.coverage.get("evaluations", 0) + n
+    res.coverage["printf_cases"] = len(jobs)
+    return res
+
+
+def replay(rp, workdir):
+    res = Result("printf-replay")
+    n, bad, st = execute_and_judge([(rp["fn"], rp["case"])], workdir, flavours=(rp["flavour"],))
+    for b in bad:
+        res.violations.append(dict(desc=describe(b), cluster=cluster(b), slug="pf-replay", dev=b["dev"], replay=rp, props=b["props"]))
+    print("replayed: %s" % (describe(bad[0]) if bad else "conforming"))
+    return res
